@@ -250,7 +250,9 @@ def run(ctx):
     ctx.coverage['clause_groups_run'] = len(groups)
     ctx.coverage['status_pairs_(clause,negated)'] = {'%s/%s' % k: v for k, v in sorted(dist.items(), key=lambda x: -x[1])}
     ctx.coverage['evaluations'] += n * 4 + n2 * 5
-    ctx.coverage['distinct_nontrivial'] = n + n2
+    from .. import qparse as _qp
+    n4 = _qp.check_operators(ctx, 'c03op')      # the operator grammar: how a negation is READ (Model/OpParse.v against value_cmp)
+    ctx.coverage['distinct_nontrivial'] = n + n2 + n4
     ctx.coverage['exhaustive'] = ctx.tier == 'thorough'
     ctx.coverage['rule'] = ('groups = document x query shape (scalar, list, list elements, empty list, map, missing, filtered, '
                             'indexed) x all/some x every unary and binary operator x right-hand side form (literals of every type, '
@@ -260,7 +262,7 @@ def run(ctx):
     ctx.sample({'rules': group_file(*variants('lm[*].k', True, '>', '1')), 'data': json.dumps(DOCS[0])})
     ctx.coverage['trusted_base'] = [
         'Coq 8.16.1 kernel (coqc), vm_compute for case evaluation; no axioms',
-        'hand-written model SEval.v/Operators.v (modelled, not verified); correspondence hook eval_dump + tools/gv glue',
+        'hand-written model SEval.v/Operators.v/OpParse.v (modelled, not verified); correspondence hooks eval_dump, parse_cmp_dump + tools/gv glue',
         'fancy_regex oracle table per run',
     ]
     ctx.assumptions = ['ordering operators have no operator-level negated spelling; for them only the single-comparable-value inversion and SKIP preservation are monitored']
